@@ -383,9 +383,54 @@ harness(void)
         VASSERT(cin == cout, "heap is a permutation of the input (multiset equality at an arbitrary element)");
         VREACHED();
 }
+#elif defined(H_CREATE)
+/* ================================================================== isal_create_hufftables, concrete histogram
+ * The REAL table builder is run in-model on a CONCRETE histogram (HIST_KIND, swept by the plan); symbolic
+ * are the distances / lengths / literals that are then looked up.  Every symbol the encoder can emit
+ * must have a code of at least one bit, distinct symbols must have codes none of which is a prefix
+ * of the other (checked on the distance side through get_dist_code, i.e. through dist_table[] AND
+ * dcodes[] as the encoder reads them).  Guards the argument wiring of the create_* calls inside
+ * isal_create_hufftables, which the unit harnesses above bypass. */
+#ifndef HIST_KIND
+#define HIST_KIND 0
+#endif
+struct inputs {
+        uint32_t d1, d2, length, lit;
+};
+DECLARE_INPUTS
+static struct isal_huff_histogram hist;
+static struct isal_hufftables ht;
+void
+harness(void)
+{
+        VERIF_INPUTS();
+        for (int i = 0; i < ISAL_DEF_LIT_LEN_SYMBOLS; i++)
+                hist.lit_len_histogram[i] = HIST_KIND == 0 ? 0 : HIST_KIND == 1 ? 1 : (uint64_t) (i % 7) * (i % 5) + (i == 256);
+        for (int i = 0; i < ISAL_DEF_DIST_SYMBOLS; i++)
+                hist.dist_histogram[i] = HIST_KIND == 0 ? 0 : HIST_KIND == 1 ? 1 : (uint64_t) (i % 3) * (i + 1);
+        int r = isal_create_hufftables(&ht, &hist);
+        VASSERT(r == 0, "table creation succeeds");
+        VASSUME(I.d1 >= 1 && I.d1 <= 32768 && I.d2 >= 1 && I.d2 <= 32768 && I.length >= 3 && I.length <= 258 && I.lit <= 256);
+        uint64_t c1, l1, c2, l2, c, l;
+        get_dist_code(&ht, I.d1, &c1, &l1);
+        get_dist_code(&ht, I.d2, &c2, &l2);
+        int s1 = spec_dist_sym(I.d1), s2 = spec_dist_sym(I.d2);
+        VASSERT(l1 >= 1u + rfc_dist_extra[s1] && l1 <= 15u + rfc_dist_extra[s1], "every distance has a Huffman code of 1..15 bits plus its extra bits");
+        if (s1 != s2) {
+                uint64_t h1 = l1 - rfc_dist_extra[s1], h2 = l2 - rfc_dist_extra[s2];
+                uint64_t m = h1 < h2 ? h1 : h2;
+                VASSERT(((c1 ^ c2) & ((1ull << m) - 1)) != 0, "codes of two different distance symbols: neither is a prefix of the other");
+        }
+        get_len_code(&ht, I.length, &c, &l);
+        int sl = spec_len_sym(I.length);
+        VASSERT(l >= 1u + rfc_len_extra[sl] && l <= 15u + rfc_len_extra[sl], "every match length has a code of 1..15 bits plus extra bits");
+        get_lit_code(&ht, I.lit, &c, &l);
+        VASSERT(l >= 1 && l <= 15, "every literal and the end-of-block symbol have a code of 1..15 bits");
+        VREACHED();
+}
 #endif
 
-#if defined(H_RL) || defined(H_WRL) || defined(H_LEN) || defined(H_DIST) || defined(H_SYM) || defined(H_USEABLE) ||         \
+#if defined(H_CREATE) || defined(H_RL) || defined(H_WRL) || defined(H_LEN) || defined(H_DIST) || defined(H_SYM) || defined(H_USEABLE) ||         \
         defined(H_HEAP)
 VERIF_MAIN
 #endif
